@@ -86,7 +86,7 @@ func buildC08(tier string, seed int64) *Family {
 	add("count(a) + count(@*) * 2")
 	// operand independence: an operand whose path carries a predicate must not move the
 	// context node seen by the operands evaluated after it
-	filt := []string{"count(*[1])", "count(a[@a])", "count(*[. = 1])", "number(*[2])", "string-length(*[1])", "count(*[a])", "count(//a[1])", "number(*[last()])", "count(following::*)", "count(preceding::a)", "count(a/following::*)"}
+	filt := []string{"count(*[1])", "count(a[@a])", "count(*[. = 1])", "number(*[2])", "string-length(*[1])", "count(*[a])", "count(//a[1])", "number(*[last()])", "count(following::*)", "count(preceding::a)"}
 	plain := []string{"count(*)", "number(a)", "count(@*)", "string-length(.)"}
 	for i, f := range filt {
 		for j, q := range plain {
